@@ -55,7 +55,7 @@ CSpecWords == {"static", "const", "double", "float", "int", "bool", "_Bool", "_C
 IsLvalue(n) == n.k \in {"sym", "idx", "deref"}
 
 RECURSIVE CExpr(_, _), CCond(_, _), CBin(_, _, _), CClimb(_, _, _, _), CUnary(_, _), CPostTail(_, _, _),
-          CPrimary(_, _), CArgs(_, _, _)
+          CPrimary(_, _), CArgs(_, _, _), CInit(_, _), CItemsK(_, _, _, _, _), CItemsAll(_, _, _, _, _)
 
 \* assignment-expression (the comma operator is not part of the fragment)
 CExpr(toks, p) ==
@@ -122,13 +122,12 @@ CPostTail(toks, lhs, p) ==
        ELSE CPostTail(toks, N(IF IsOp(toks, p, "++") THEN "postinc" ELSE "postdec", Tok(toks, p).v, <<lhs>>), p + 1)
   ELSE Res(lhs, p)
 
-\* argument-expression-list up to and including ')'
+\* argument-expression-list up to and including ')' (see CItems below; no trailing comma)
 CArgs(toks, p, acc) ==
-  LET e == CExpr(toks, p) IN
-  IF IsErr(e) THEN e
-  ELSE IF IsOp(toks, e.p, ",") THEN CArgs(toks, e.p + 1, Append(acc, e.n))
-  ELSE IF IsOp(toks, e.p, ")") THEN Res(N("args", "", Append(acc, e.n)), e.p + 1)
-  ELSE Err("expected ',' or ')'", e.p)
+  LET it == CItemsAll(toks, p, 0, ")", FALSE) IN
+  IF IsErr(it) THEN it
+  ELSE IF IsOp(toks, it.p - 1, ",") THEN Err("expected an argument after ','", it.p)
+  ELSE Res(N("args", "", it.n.a), it.p + 1)
 
 CPrimary(toks, p) ==
   LET tk == Tok(toks, p) IN
@@ -144,7 +143,7 @@ CPrimary(toks, p) ==
 ---------------------------------------------------------------------------
 \* statements and declarations
 
-RECURSIVE CStmt(_, _), CStmts(_, _, _), CInit(_, _), CInitItems(_, _, _), CSpecs(_, _, _), CDims(_, _, _)
+RECURSIVE CStmt(_, _), CStmts(_, _, _), CStmtsK(_, _, _), CStmtsAll(_, _, _), CSpecs(_, _, _), CDims(_, _, _)
 
 CSpecs(toks, p, acc) ==
   IF Tok(toks, p).t = "kw" /\ Tok(toks, p).v \in CSpecWords
@@ -162,17 +161,33 @@ CDims(toks, p, acc) ==
 \* initializer: assignment-expression | { initializer-list [,] }
 CInit(toks, p) ==
   IF IsOp(toks, p, "{")
-  THEN IF IsOp(toks, p + 1, "}") THEN Res(N("list", "", <<>>), p + 2) ELSE CInitItems(toks, p + 1, <<>>)
+  THEN LET it == CItemsAll(toks, p + 1, 0, "}", TRUE) IN
+       IF IsErr(it) THEN it ELSE Res(N("list", "", it.n.a), it.p + 1)
   ELSE CExpr(toks, p)
 
-CInitItems(toks, p, acc) ==
-  LET e == CInit(toks, p) IN
-  IF IsErr(e) THEN e
-  ELSE IF IsOp(toks, e.p, ",")
-       THEN IF IsOp(toks, e.p + 1, "}") THEN Res(N("list", "", Append(acc, e.n)), e.p + 2)
-            ELSE CInitItems(toks, e.p + 1, Append(acc, e.n))
-  ELSE IF IsOp(toks, e.p, "}") THEN Res(N("list", "", Append(acc, e.n)), e.p + 1)
-  ELSE Err("expected ',' or '}' in initializer", e.p)
+\* Comma-separated items up to (not including) `closer`.  Long lists (tables with thousands of entries) are
+\* parsed by doubling - CItemsK reads at most 2^k items - so the evaluation depth is logarithmic in the length.
+\* Each item is followed by ',' (consumed) or by the closer.
+CItemsK(toks, p, k, closer, init) ==
+  IF IsOp(toks, p, closer) \/ p > Len(toks) THEN Res(N("items", "", <<>>), p)
+  ELSE IF k = 0
+  THEN LET e == IF init THEN CInit(toks, p) ELSE CExpr(toks, p) IN
+       IF IsErr(e) THEN e
+       ELSE IF IsOp(toks, e.p, ",") THEN Res(N("items", "", <<e.n>>), e.p + 1)
+       ELSE IF IsOp(toks, e.p, closer) THEN Res(N("items", "", <<e.n>>), e.p)
+       ELSE Err("expected ',' or '" \o closer \o "'", e.p)
+  ELSE LET l == CItemsK(toks, p, k - 1, closer, init) IN
+       IF IsErr(l) THEN l
+       ELSE LET r == CItemsK(toks, l.p, k - 1, closer, init) IN
+            IF IsErr(r) THEN r ELSE Res(N("items", "", l.n.a \o r.n.a), r.p)
+
+CItemsAll(toks, p, k, closer, init) ==
+  LET l == CItemsK(toks, p, k, closer, init) IN
+  IF IsErr(l) THEN l
+  ELSE IF IsOp(toks, l.p, closer) THEN l
+  ELSE IF l.p > Len(toks) THEN Err("missing '" \o closer \o "'", l.p)
+  ELSE LET r == CItemsAll(toks, l.p, k + 1, closer, init) IN
+       IF IsErr(r) THEN r ELSE Res(N("items", "", l.n.a \o r.n.a), r.p)
 
 \* declaration: specifiers declarator [= initializer] (one declarator; no trailing ';' consumed)
 CDecl(toks, p) ==
@@ -221,10 +236,23 @@ CStmt(toks, p) ==
   ELSE LET e == CExpr(toks, p) IN
        IF IsErr(e) THEN e ELSE IF ~IsOp(toks, e.p, ";") THEN Err("expected ';'", e.p) ELSE Res(e.n, e.p + 1)
 
-\* statements up to '}' or the end of input
-CStmts(toks, p, acc) ==
-  IF p > Len(toks) \/ IsOp(toks, p, "}") THEN Res(N("stmts", "", acc), p)
-  ELSE LET s == CStmt(toks, p) IN IF IsErr(s) THEN s ELSE CStmts(toks, s.p, Append(acc, s.n))
+\* statements up to '}' or the end of input; by doubling, as for CItems (loop bodies with thousands of statements)
+CStmtsK(toks, p, k) ==
+  IF p > Len(toks) \/ IsOp(toks, p, "}") THEN Res(N("stmts", "", <<>>), p)
+  ELSE IF k = 0 THEN LET s == CStmt(toks, p) IN IF IsErr(s) THEN s ELSE Res(N("stmts", "", <<s.n>>), s.p)
+  ELSE LET l == CStmtsK(toks, p, k - 1) IN
+       IF IsErr(l) THEN l
+       ELSE LET r == CStmtsK(toks, l.p, k - 1) IN
+            IF IsErr(r) THEN r ELSE Res(N("stmts", "", l.n.a \o r.n.a), r.p)
+
+CStmtsAll(toks, p, k) ==
+  LET l == CStmtsK(toks, p, k) IN
+  IF IsErr(l) THEN l
+  ELSE IF l.p > Len(toks) \/ IsOp(toks, l.p, "}") THEN l
+  ELSE LET r == CStmtsAll(toks, l.p, k + 1) IN
+       IF IsErr(r) THEN r ELSE Res(N("stmts", "", l.n.a \o r.n.a), r.p)
+
+CStmts(toks, p, acc) == CStmtsAll(toks, p, 0)
 
 ---------------------------------------------------------------------------
 \* entry points: the whole token sequence must be consumed
